@@ -29,6 +29,7 @@ type Prog struct {
 	Funcs map[string]*FuncInfo
 	// inferred ghost modification sets (transitive), by function key
 	GhostMods map[string]map[string]bool
+	HeapPure     map[string]bool
 	stableHeap   map[string]bool
 	stableFields map[*types.Var]*TypeContract
 	RepoDir   string
@@ -118,6 +119,7 @@ func LoadProg(repo string, patterns []string, specFiles []string) (*Prog, error)
 	}
 	p.inferGhostMods()
 	p.computeStable()
+	p.inferHeapPure()
 	return p, nil
 }
 
